@@ -71,8 +71,8 @@ CHECKS.update({
 CHECKS.update({
  'C13': dict(engine='mirsym', technique='symbolic execution of the MIR of dsolve/fdsolve (generic bodies instantiated at f64, Dual, Dual2) in exact fraction arithmetic over every pivot-choice path; A x = b and its per-name derivative forms decided as polynomial identities (ring normal form by z3, SMT fallback); non-singular => non-zero pivots decided by z3 with the path conditions; native replay',
    category='model_checking', design_ref='DESIGN.md §3.13',
-   text='For symbolic real matrices of size 1..3 (quick) / 1..4 (thorough) and tall 3x2 (4x2, 4x3) systems with least squares, on EVERY pivot path the returned x satisfies A x = b (normal equations for least squares) as an exact algebraic identity given non-zero pivots; a non-singular matrix never leads to a zero pivot (n<=3); Dual/Dual2 entries (2x2, shared variable list) satisfy A x = b in every first and second derivative, also with float A and dual b; a row-swapped system gives the same x.',
-   note='Exact arithmetic (rounding/conditioning outside). Dual entries share one variable list (layouts are C03). n<=4.'),
+   text='For fully symbolic real matrices of size 1..3 and tall 3x2 (thorough: 4x2) systems with least squares - and in the thorough tier size 4 / 4x3 with a symbolic right-hand side and a matrix that is concrete or concrete except one symbolic entry (each position) - on EVERY pivot path the returned x satisfies A x = b (normal equations for least squares) as an exact algebraic identity given non-zero pivots; a non-singular matrix never leads to a zero pivot (n<=3); Dual/Dual2 entries (2x2, shared variable list) satisfy A x = b in every first and second derivative, also with float A and dual b; a row-swapped system gives the same x.',
+   note='Exact arithmetic (rounding/conditioning outside). Dual entries share one variable list (layouts are C03). Fully symbolic 4x4 does not fit in memory (DESIGN 8.2).'),
 })
 CHECKS.update({
  'C09': dict(engine='mirsym', technique='symbolic execution of the MIR of FXRates::try_new / create_fx_array / mut_arrays_remaining_elements (recursive) with symbolic positive rates on every canonical quote-list structure; exact fraction arithmetic; z3 validity query per structure against the tree path-product oracle; native replay',
@@ -87,8 +87,8 @@ CHECKS.update({
 CHECKS.update({
  'C11': dict(engine='kani+mirsym', technique='Kani/CBMC harnesses for index_left over every strictly increasing i64 list of a given length; symbolic execution of the MIR of CurveDF::try_new and the five interpolators with symbolic node dates/values/query date, z3 validity per path against a declarative adjacent-pair oracle; native replay',
    category='model_checking', design_ref='DESIGN.md §3.11',
-   text='Interval selection: for EVERY strictly increasing list of 2..6 (quick) / 2..9 (thorough) 64-bit keys and every query value the selected interval is the one whose right end is the first key >= x, clamped (CBMC, bit-precise). Formulas: for 2..4 / 2..5 nodes with symbolic distinct dates (all supply orders through the real sort), symbolic positive values and a symbolic query date before/at/between/after the nodes, each of the five rules returns its closed form on the adjacent pair selected by that rule (log-type rules compared in log space as exact rational identities), the node value at a node (1 at the first node for the zero-rate rule), linear results lie between the node values.',
-   note='Reals; ln/exp uninterpreted with exp(ln y)=y on node values; dates at midnight; >5 nodes only through the index logic. Interval guards are settled against the integer part of the path condition; polynomial identities are discharged by normal form (z3, then exact expansion in sympy) before the solver is asked.'),
+   text='Interval selection: for EVERY strictly increasing list of 2..6 (quick) / 2..9 (thorough) 64-bit keys and every query value the selected interval is the one whose right end is the first key >= x, clamped (CBMC, bit-precise). Formulas: for 2..4 / 2..6 nodes with symbolic distinct dates (all supply orders through the real sort), symbolic positive values and a symbolic query date before/at/between/after the nodes, each of the five rules returns its closed form on the adjacent pair selected by that rule (log-type rules compared in log space as exact rational identities), the node value at a node (1 at the first node for the zero-rate rule), linear results lie between the node values.',
+   note='Reals; ln/exp uninterpreted with exp(ln y)=y on node values; dates at midnight; >6 nodes only through the index logic. Interval guards are settled against the integer part of the path condition; polynomial identities are discharged by normal form (z3, then exact expansion in sympy) before the solver is asked.'),
  'C12': dict(engine='mirsym', technique='symbolic execution of the MIR of set_ad_order / interpolated_value / index_value / nodes_into_order with symbolic nodes and query, through switch sequences; z3 validity per path of gradient/Hessian-by-name against the derivatives of the closed form; native replay against finite differences of the closed form evaluated independently',
    category='model_checking', design_ref='DESIGN.md §3.12',
    text='For every rule, 2..3 (quick) / 2..4 nodes with symbolic dates and values and a symbolic query date: every sequence of order switches (length <=2 / <=3) keeps every looked-up value; after raising float nodes the node at sorted position i carries exactly the tag <id>i with unit sensitivity (also through nodes_into_order on unsorted supply); the gradient and Hessian of a looked-up value, read by variable name, equal the first and second derivatives of the closed form w.r.t. the two active node values and are zero elsewhere; nodes that already are Dual/Dual2 (one shared user variable or separate ones, symbolic sensitivities) keep their names through 1<->2 switches and obey the chain rule; index value = base/value, 0 before the first node, Err without base.',
